@@ -415,6 +415,10 @@ def _deepcopy(I, args, kwargs):
             n = SSet(v.items)
             n.__dict__.update({k: list(x) for k, x in v.__dict__.items() if k == "absorbed"})
             return n
+        if hasattr(v, "deepcopy_hook"):
+            n = v.deepcopy_hook()
+            memo[id(v)] = n
+            return n
         return v
     return cp(args[0])
 
